@@ -289,6 +289,11 @@ type Set struct {
 	healthyBackup map[string]*Host
 	// the cache of current healthy hosts
 	healthyCache atomic.Value // []*Host
+	// updating is set while one call changes several members. Healthy
+	// reads the cache without the lock, it must not see the steps of such
+	// a call (e.g. only backup hosts, or none, while the main hosts are
+	// being replaced): the cache is published once, at the end.
+	updating bool
 }
 
 // NewSet creates a set.
@@ -343,6 +348,9 @@ func (set *Set) removeFromHealthy(host ...*Host) {
 }
 
 func (set *Set) buildHealthyCache() {
+	if set.updating {
+		return
+	}
 	hostMap := set.healthy()
 
 	keys := make([]string, 0, len(hostMap))
@@ -363,7 +371,18 @@ func (set *Set) buildHealthyCache() {
 func (set *Set) Add(hosts ...*Host) {
 	set.Lock()
 	defer set.Unlock()
+	defer set.publishAfter()()
 	set.add(hosts...)
+}
+
+// publishAfter suspends the publication of the healthy hosts, the returned
+// function publishes them. It must be called with the lock held.
+func (set *Set) publishAfter() func() {
+	set.updating = true
+	return func() {
+		set.updating = false
+		set.buildHealthyCache()
+	}
 }
 
 func (set *Set) add(hosts ...*Host) {
@@ -393,6 +412,7 @@ func (set *Set) add(hosts ...*Host) {
 func (set *Set) Remove(hosts ...*Host) {
 	set.Lock()
 	defer set.Unlock()
+	defer set.publishAfter()()
 	set.remove(hosts...)
 }
 
@@ -522,6 +542,7 @@ func (set *Set) Exist(addr string) bool {
 func (set *Set) ReplaceAll(hosts []*Host) {
 	set.Lock()
 	defer set.Unlock()
+	defer set.publishAfter()()
 	for _, host := range set.all {
 		set.remove(host)
 	}
